@@ -511,9 +511,9 @@ pub fn def() -> PropDef {
         assumptions: &["supported forms = a column compared with a numeric or string literal, combined with AND / OR / parentheses; NULL / boolean / timestamp literals, IN, BETWEEN and NOT are outside the generated domain", "the subscriber keeps up (channel capacity 256 > batches)"],
         subs: || {
             vec![
-                Box::new(Sub::<Case> { name: "filter-direct", cases: |t| t.scale(4_000, 10), strategy: |_| case_strategy(true, 2), exec: exec_direct }),
-                Box::new(Sub::<Case> { name: "literal-classes", cases: |t| t.scale(1_500, 10), strategy: |_| case_strategy(false, 2), exec: exec_direct }),
-                Box::new(Sub::<Case> { name: "executor", cases: |t| t.scale(600, 10), strategy: |_| (case_strategy(true, 4), prop_oneof![1 => Just(0u8), 2 => any::<u8>()]).prop_map(|(mut c, early)| { c.early = early; c }).boxed(), exec: exec_executor }),
+                Box::new(Sub::<Case> { name: "filter-direct", cases: |t| t.scale(8_000, 8), strategy: |_| case_strategy(true, 2), exec: exec_direct }),
+                Box::new(Sub::<Case> { name: "literal-classes", cases: |t| t.scale(4_000, 8), strategy: |_| case_strategy(false, 2), exec: exec_direct }),
+                Box::new(Sub::<Case> { name: "executor", cases: |t| t.scale(1_500, 8), strategy: |_| (case_strategy(true, 4), prop_oneof![1 => Just(0u8), 2 => any::<u8>()]).prop_map(|(mut c, early)| { c.early = early; c }).boxed(), exec: exec_executor }),
                 Box::new(Sub::<TopicCase> {
                     name: "topic",
                     cases: |t| t.scale(3_000, 10),
